@@ -240,6 +240,27 @@ class Ctx:
         return seen
 
     # ---- role locators (by what a function does, not by its private name)
+    def calls_deep(self, f):
+        """callee paths of f, looking through private local helpers (the functions the interpreter may evaluate in place)"""
+        if "calls_deep" not in self._roles:
+            self._roles["calls_deep"] = {}
+        memo = self._roles["calls_deep"]
+        if f["path"] in memo:
+            return memo[f["path"]]
+        out, seen, work = set(), set(), [f]
+        while work:
+            g = work.pop()
+            for c in calls(g["body"]):
+                out.add(c["fn"])
+                h = self.facts.fns.get(c["fn"]) if isinstance(self.facts.fns, dict) else None
+                if h is None:
+                    h = self.fn(c["fn"])
+                if h is not None and h.get("body") is not None and h["vis"] != "pub" and h["path"] not in seen and h["path"] != f["path"]:
+                    seen.add(h["path"])
+                    work.append(h)
+        memo[f["path"]] = out
+        return out
+
     def archive_writers(self):
         """local functions that build a `Header { .. }` and hand it to `Header::to_writer*`"""
         out = []
@@ -351,6 +372,12 @@ def _pat_top(p):
         return ("ctor", p.get("adt"))
     if k == "PathPat":
         return ("ctor", p.get("def"))
+    if k == "RangePat" and ("lo" in p or "hi" in p):
+        lo = p.get("lo") or {}
+        hi = p.get("hi") or {}
+        return ("range", (lo.get("int") if isinstance(lo, dict) else None, hi.get("int") if isinstance(hi, dict) else None, bool(p.get("inclusive"))))
+    if k == "SlicePat" and "min" in p:
+        return ("slice", (p["min"], bool(p.get("rest"))))
     return ("any", None)
 
 
@@ -451,6 +478,39 @@ def rejects_because(p, upto, allowed, after=None):
     return None
 
 
+def _range_pat_facts(v, pay, matched):
+    """`lo..=hi` / `lo..hi` matched or (for a range starting at the type's minimum 0, or open below) not matched"""
+    lo, hi, incl = pay
+    out = []
+    if matched:
+        if lo is not None:
+            out.append(("rel", ">=", v, ("c", lo)))
+        if hi is not None:
+            out.append(("rel", "<=" if incl else "<", v, ("c", hi)))
+    else:
+        if hi is not None and (lo is None or lo == 0):
+            out.append(("rel", ">" if incl else ">=", v, ("c", hi)))
+        elif hi is None and lo is not None:
+            out.append(("rel", "<", v, ("c", lo)))
+    return out
+
+
+def _slice_pat_facts(v, pay, matched):
+    """a slice pattern of minimum length `min` (with or without a `..` rest) matched / did not match the sequence v"""
+    mn, rest = pay
+    if matched:
+        if mn == 0 and not rest:
+            return [("empty", v, True)]
+        if mn >= 1:
+            return [("empty", v, False)]
+    else:
+        if mn == 0 and not rest:
+            return [("empty", v, False)]
+        if mn == 1 and rest:
+            return [("empty", v, True)]
+    return []
+
+
 def decision_facts(d):
     """facts that hold after decision event d, as tuples:
          ('eq', term, n) ('ne', term, n)           comparisons with an integer constant
@@ -473,17 +533,27 @@ def decision_facts(d):
             out.append(("eq", v, pay))
         elif kind == "ctor":
             out.append(("variant", v, pay, True))
+        elif kind == "slice":
+            out.extend(_slice_pat_facts(v, pay, True))
+        elif kind == "range":
+            out.extend(_range_pat_facts(v, pay, True))
         out.extend(_tuple_pat_facts(d.d.get("pat"), v))
         for a in arms[:i]:
-            if a.get("guard") is not None:
-                continue
+            if a.get("guard") is not None and d.d.get("fell", True):
+                continue      # that arm's pattern may have matched (its guard failed)
             k2, p2 = _pat_top(a["pat"])
             if k2 == "lit":
                 out.append(("ne", v, p2))
             elif k2 == "ctor":
                 out.append(("variant", v, p2, False))
+            elif k2 == "slice":
+                out.extend(_slice_pat_facts(v, p2, False))
+            elif k2 == "range":
+                out.extend(_range_pat_facts(v, p2, False))
     elif how in ("letelse", "iflet"):
         kind, pay = _pat_top(d.d.get("pat"))
+        if kind == "slice":
+            out.extend(_slice_pat_facts(v, pay, d.d["outcome"] is True))
         if kind == "ctor":
             out.append(("variant", v, pay, d.d["outcome"] is True))
         elif kind == "lit":
